@@ -1152,7 +1152,7 @@ for _p in ('C06', 'C09'):
 def schedalg(name, tier, variant='ok', **kw):
     q = tier == 'quick'
     st = {'kind': 'spec_check', 'name': name, 'module': 'ScheduleAlg', 'spec': 'ASpec', 'view': 'AView',
-          'constants': {'MaxN': 6 if q else 7, 'MaxAdds': 3, 'MaxBlocks': 4, 'SVariant': '"%s"' % variant},
+          'constants': {'MaxN': 6 if q else 8, 'MaxAdds': 3, 'MaxBlocks': 4, 'SVariant': '"%s"' % variant},
           'invariants': ['CacheBound', 'CacheTrue', 'SoFarOK', 'FinalOK', 'Useful'], 'timeout': 1800 if q else 10800}
     st.update(kw)
     return st
